@@ -403,28 +403,32 @@ func (r *relay) header(
 	streamEnded bool,
 	priority http2.PriorityParam,
 ) error {
-	encoded, err := r.encodeFull(headers)
-	if err != nil {
-		return fmt.Errorf("encoding headers %v: %w", headers, err)
-	}
-
-	maxPayloadLength := atomic.LoadUint32(&r.maxFrameSize)
-	// Padding is not implemented because the extra security is not needed for a development proxy.
-	// If it were used, a single padding length octet should be deducted from the max header fragment
-	// length.
-	maxHeaderFragmentLength := maxPayloadLength
-	if !priority.IsZero() {
-		maxHeaderFragmentLength -= headersPriorityMetadataLength
-	}
-	chunks := splitIntoChunks(int(maxHeaderFragmentLength), int(maxPayloadLength), encoded)
-
+	// The block is HPACK-encoded when the frame is written, not here: frames of different streams
+	// can leave their queues in a different order than they entered them, and the receiver can only
+	// decode blocks in the order in which they were encoded.
 	r.enqueueFrame(&queuedHeaderFrame{
 		streamID:  id,
 		endStream: streamEnded,
 		priority:  priority,
-		chunks:    chunks,
+		headers:   headers,
+		relay:     r,
 	})
 	return nil
+}
+
+// headerChunks HPACK-encodes headers and splits the block into chunks that respect the frame
+// size limit; firstChunkOverhead is the room the first frame needs for other fields.
+func (r *relay) headerChunks(headers []hpack.HeaderField, firstChunkOverhead int) ([][]byte, error) {
+	encoded, err := r.encodeFull(headers)
+	if err != nil {
+		return nil, fmt.Errorf("encoding headers %v: %w", headers, err)
+	}
+
+	// Padding is not implemented because the extra security is not needed for a development proxy.
+	// If it were used, a single padding length octet should be deducted from the max header fragment
+	// length.
+	maxPayloadLength := int(atomic.LoadUint32(&r.maxFrameSize))
+	return splitIntoChunks(maxPayloadLength-firstChunkOverhead, maxPayloadLength, encoded), nil
 }
 
 func (r *relay) priority(id uint32, priority http2.PriorityParam) {
@@ -442,19 +446,11 @@ func (r *relay) rstStream(id uint32, errCode http2.ErrCode) {
 }
 
 func (r *relay) pushPromise(id, promiseID uint32, headers []hpack.HeaderField) error {
-	encoded, err := r.encodeFull(headers)
-	if err != nil {
-		return fmt.Errorf("encoding push promise headers %v: %w", headers, err)
-	}
-
-	maxPayloadLength := atomic.LoadUint32(&r.maxFrameSize)
-	maxHeaderFragmentLength := maxPayloadLength - pushPromiseMetadataLength
-	chunks := splitIntoChunks(int(maxHeaderFragmentLength), int(maxPayloadLength), encoded)
-
 	r.enqueueFrame(&queuedPushPromiseFrame{
 		streamID:  id,
 		promiseID: promiseID,
-		chunks:    chunks,
+		headers:   headers,
+		relay:     r,
 	})
 	return nil
 }
